@@ -14,6 +14,7 @@ git fetch -q "$d" "builder-$1"
 if ! git merge --no-edit FETCH_HEAD >/tmp/merge.log 2>&1; then
   tail -5 /tmp/merge.log
   if git diff --name-only --diff-filter=U | grep -q '^lib/levels.json$'; then python3 tools/resolve_levels.py; git add lib/levels.json; fi
+  if git diff --name-only --diff-filter=U | grep -q '^lib/props.py$'; then python3 tools/resolve_props.py && git add lib/props.py; fi
   if git status --short | grep -q 'coq/.filelist'; then git rm -q --cached coq/.filelist 2>/dev/null || true; fi
   for f in $(git diff --name-only --diff-filter=U); do case $f in evidence/*|MANIFEST.json) git checkout --ours -- $f; git add $f;; esac; done
   left=$(git diff --name-only --diff-filter=U)
